@@ -45,6 +45,9 @@ def havoc_locations(eng, st, locs):
         kind = loc[0]
         if kind == "list":
             rec = st.objs[loc[1].oid]
+            if len(loc) > 2:   # ("list", obj, ekind): the list takes this element kind from now on
+                rec = dict(rec, ekind=loc[2], elem=z3.K(z3.IntSort(), B._default(loc[2])))
+                st = st.setobj(loc[1].oid, rec)
             n = fresh("hv_len", z3.IntSort())
             st = st.updobj(loc[1].oid, len=n, elem=fresh("hv_elem", rec["elem"].sort())).assume(n >= 0)
         elif kind == "dict":
@@ -62,6 +65,9 @@ def havoc_locations(eng, st, locs):
             st = st.updobj(loc[1].oid, **upd)
             if "card" in rec:
                 st = st.assume(upd["card"] >= 0)
+        elif kind == "setlazy":
+            kk = loc[2]
+            st = st.setobj(loc[1].oid, {"dom": fresh("hv_set", z3.ArraySort(sort_of(kk), z3.BoolSort())), "kkind": kk})
         elif kind == "set":
             rec = st.objs[loc[1].oid]
             st = st.updobj(loc[1].oid, dom=fresh("hv_set", rec["dom"].sort()))
@@ -182,8 +188,8 @@ def invariant_for(eng, node, st, fid, seq, spec, ordn):
         sb = bind_target(eng, node.target, sh, fid, seq.get(sh, i))
         for k2, s2, v2 in eng.exec_block(node.body, sb, fid):
             if k2 in ("next", "continue"):
-                eng.oblige(s2, spec.inv(spec_env(eng, s2), LoopCtx(i + 1, n, s2, seq, fid, st)),
-                           f"loop#{ordn}/inv-preserve", kind="loop")
+                eng.oblige_split(s2, spec.inv(spec_env(eng, s2), LoopCtx(i + 1, n, s2, seq, fid, st)),
+                                 f"loop#{ordn}/inv-preserve", kind="loop")
             elif k2 == "break":
                 res.append(("next", s2, None))
             else:
